@@ -8,8 +8,10 @@
 //! claims, plain traffic, address and route changes and time steps across the
 //! 1 s and 60 s boundaries.
 //!
-//! Part `ieee802154` (see c16_lowpan.rs): the same idea on IEEE 802.15.4 /
-//! 6LoWPAN, restricted to the 802.15.4 destination address and the NS rate.
+//! Part `ieee802154`: the same world and oracle on IEEE 802.15.4 / 6LoWPAN
+//! (IPv6 only); c16_lowpan.rs holds an own 802.15.4 MAC header codec and an
+//! RFC 6282 IPHC / UDP-NHC decoder so that every emitted frame can be mapped
+//! to its IPv6 destination.
 //!
 //! Oracle: an invariant over the history (see DESIGN.md C16 and `prop()`).
 
@@ -26,7 +28,7 @@ use vkit::{Ctx, Src};
 #[path = "c16_lowpan.rs"]
 mod lowpan;
 
-pub const OUR_MAC: [u8; 6] = [0x02, 0, 0, 0, 0, 1];
+pub const PAN: u16 = 0xabcd;
 pub const LIFETIME_MS: i64 = 60_000;
 pub const SILENT_MS: i64 = 1_000;
 const ICMP_IDENT: u16 = 0x16c0;
@@ -45,20 +47,69 @@ pub fn report(ctx: &mut Ctx, f: Fail) -> Result<(), Fail> {
     ctx.report(f)
 }
 
-pub fn mac_s(m: &[u8; 6]) -> String {
-    format!("{:02x}:{:02x}:{:02x}:{:02x}:{:02x}:{:02x}", m[0], m[1], m[2], m[3], m[4], m[5])
+/// A link-layer address: Ethernet (6 octets), IEEE 802.15.4 extended (8) or short (2).
+#[derive(Clone, Copy, PartialEq, Eq, Debug)]
+pub struct Mac {
+    b: [u8; 8],
+    n: u8,
 }
 
-/// I/G bit clear (this is also what smoltcp calls unicast for an Ethernet address).
-pub fn mac_unicast(m: &[u8; 6]) -> bool {
-    m[0] & 1 == 0
+impl Mac {
+    pub fn new(a: &[u8]) -> Mac {
+        assert!(a.len() == 6 || a.len() == 8 || a.len() == 2);
+        let mut b = [0u8; 8];
+        b[..a.len()].copy_from_slice(a);
+        Mac { b, n: a.len() as u8 }
+    }
+    pub fn bytes(&self) -> &[u8] {
+        &self.b[..self.n as usize]
+    }
+    pub fn e6(&self) -> [u8; 6] {
+        assert!(self.n == 6);
+        [self.b[0], self.b[1], self.b[2], self.b[3], self.b[4], self.b[5]]
+    }
+    /// Ethernet: I/G bit clear (this is also what smoltcp calls unicast); 802.15.4: anything
+    /// but the short broadcast address 0xffff.
+    pub fn unicast(&self) -> bool {
+        match self.n {
+            6 => self.b[0] & 1 == 0,
+            2 => self.b[..2] != [0xff, 0xff],
+            _ => true,
+        }
+    }
 }
 
-/// The hardware address of the station that really owns `ip` in the simulated LAN.
-fn mac_of(ip: &Ip) -> [u8; 6] {
+impl std::fmt::Display for Mac {
+    fn fmt(&self, f: &mut std::fmt::Formatter<'_>) -> std::fmt::Result {
+        let v: Vec<String> = self.bytes().iter().map(|x| format!("{:02x}", x)).collect();
+        write!(f, "{}", v.join(":"))
+    }
+}
+
+pub fn mac_s(m: &Mac) -> String {
+    m.to_string()
+}
+
+pub fn mac_unicast(m: &Mac) -> bool {
+    m.unicast()
+}
+
+/// The hardware address of the station that really owns `ip` in the simulated link.
+fn mac_of(ip: &Ip, lowpan: bool) -> Mac {
     match ip {
-        Ip::V4(a) => [0x02, 0x04, a[0], a[1], a[2], a[3]],
-        Ip::V6(a) => [0x02, 0x06, a[1], a[7], a[5] ^ a[14], a[15]],
+        Ip::V4(a) => Mac::new(&[0x02, 0x04, a[0], a[1], a[2], a[3]]),
+        Ip::V6(a) if !lowpan => Mac::new(&[0x02, 0x06, a[1], a[7], a[5] ^ a[14], a[15]]),
+        // a few 802.15.4 stations use the address their link-local IID is derived from
+        Ip::V6(a) if a[0] == 0xfe && a[15] % 2 == 1 => Mac::new(&[a[8] ^ 0x02, a[9], a[10], a[11], a[12], a[13], a[14], a[15]]),
+        Ip::V6(a) => Mac::new(&[0x02, 0x06, a[1], a[7], a[5] ^ a[14], a[15], 0x15, 0x04]),
+    }
+}
+
+fn spoof_mac(k: u8, lowpan: bool) -> Mac {
+    if lowpan {
+        Mac::new(&[0x02, 0xee, 0, 0, 0, k, 0x15, 0x04])
+    } else {
+        Mac::new(&[0x02, 0xee, 0, 0, 0, k])
     }
 }
 
@@ -207,7 +258,7 @@ fn ip_unicast(ip: &Ip) -> bool {
 #[derive(Clone, Debug)]
 struct Claim {
     ip: Ip,
-    mac: [u8; 6],
+    mac: Mac,
     t: i64,
     seq: u64,
     /// kind of a valid claim / reason why the claim is not a legitimate one
@@ -218,10 +269,10 @@ struct Claim {
 
 #[derive(Clone, Debug)]
 enum Spec {
-    Arp { eth_src: [u8; 6], eth_dst: [u8; 6], op: u16, sha: [u8; 6], spa: [u8; 4], tha: [u8; 6], tpa: [u8; 4] },
-    Nd { eth_src: [u8; 6], eth_dst: [u8; 6], src: [u8; 16], dst: [u8; 16], hop: u8, na: bool, target: [u8; 16], flags: u8, ll: Option<[u8; 6]> },
+    Arp { eth_src: Mac, eth_dst: Mac, op: u16, sha: [u8; 6], spa: [u8; 4], tha: [u8; 6], tpa: [u8; 4] },
+    Nd { eth_src: Mac, eth_dst: Mac, src: [u8; 16], dst: [u8; 16], hop: u8, na: bool, target: [u8; 16], flags: u8, ll: Option<Mac> },
     /// kind: 0 UDP to an open port, 1 UDP to a closed port, 2 echo request, 3 TCP SYN to a closed port
-    Traffic { eth_src: [u8; 6], eth_dst: [u8; 6], src: Ip, dst: Ip, kind: u8 },
+    Traffic { eth_src: Mac, eth_dst: Mac, src: Ip, dst: Ip, kind: u8 },
 }
 
 impl Spec {
@@ -234,9 +285,9 @@ impl Spec {
                     2 => "reply".to_string(),
                     o => format!("op{}", o),
                 },
-                mac_s(sha),
+                Mac::new(sha),
                 Ip::V4(*spa),
-                mac_s(tha),
+                Mac::new(tha),
                 Ip::V4(*tpa),
                 mac_s(eth_src),
                 mac_s(eth_dst)
@@ -264,21 +315,30 @@ impl Spec {
         }
     }
 
-    fn encode(&self) -> Vec<u8> {
+    fn encode(&self, lowpan: bool, seq: u8) -> Vec<u8> {
+        let wrap = |l2_src: &Mac, l2_dst: &Mac, pkt: IpPkt| -> Vec<u8> {
+            if lowpan {
+                let IpPkt::V6(p) = pkt else { panic!("IPv4 on 802.15.4") };
+                lowpan::encode_154(seq, PAN, l2_dst.bytes(), l2_src.bytes(), &lowpan::encode_iphc_plain(&p))
+            } else {
+                let v6 = matches!(pkt, IpPkt::V6(_));
+                Eth { dst: l2_dst.e6(), src: l2_src.e6(), ethertype: if v6 { ETH_IPV6 } else { ETH_IPV4 }, payload: pkt.encode() }.encode()
+            }
+        };
         match self {
             Spec::Arp { eth_src, eth_dst, op, sha, spa, tha, tpa } => Eth {
-                dst: *eth_dst,
-                src: *eth_src,
+                dst: eth_dst.e6(),
+                src: eth_src.e6(),
                 ethertype: ETH_ARP,
                 payload: Arp { op: *op, sha: *sha, spa: *spa, tha: *tha, tpa: *tpa }.encode(),
             }
             .encode(),
             Spec::Nd { eth_src, eth_dst, src, dst, hop, na, target, flags, ll } => {
-                let icmp = if *na { nd_na(target, *flags, ll.as_ref().map(|l| &l[..])) } else { nd_ns(target, ll.as_ref().map(|l| &l[..])) };
+                let icmp = if *na { nd_na(target, *flags, ll.as_ref().map(|l| l.bytes())) } else { nd_ns(target, ll.as_ref().map(|l| l.bytes())) };
                 let body = icmp.encode6(&Ip::V6(*src), &Ip::V6(*dst));
                 let mut p = Ip6::new(*src, *dst, PROTO_ICMPV6, body);
                 p.hop = *hop;
-                Eth { dst: *eth_dst, src: *eth_src, ethertype: ETH_IPV6, payload: p.encode() }.encode()
+                wrap(eth_src, eth_dst, IpPkt::V6(p))
             }
             Spec::Traffic { eth_src, eth_dst, src, dst, kind } => {
                 let v6 = !src.is_v4();
@@ -295,8 +355,7 @@ impl Spec {
                     }
                     _ => (PROTO_TCP, Tcp::new(5555, 9, 1000, None, SYN, 1000).encode(src, dst)),
                 };
-                let pkt = IpPkt::build(*src, *dst, proto, 64, body);
-                Eth { dst: *eth_dst, src: *eth_src, ethertype: if v6 { ETH_IPV6 } else { ETH_IPV4 }, payload: pkt.encode() }.encode()
+                wrap(eth_src, eth_dst, IpPkt::build(*src, *dst, proto, 64, body))
             }
         }
     }
@@ -329,6 +388,10 @@ struct Stats {
 
 struct World {
     node: Node,
+    /// IEEE 802.15.4 / 6LoWPAN instead of Ethernet
+    lowpan: bool,
+    our_mac: Mac,
+    inject_seq: u8,
     now: i64,
     seq: u64,
     flush_seq: u64,
@@ -350,6 +413,8 @@ struct World {
     reply_dsts: Vec<Ip>,
     tail: bool,
     tail_unanswerable: u64,
+    /// transmit budget of the device per poll (None = unlimited)
+    budget: Option<usize>,
     stats: Stats,
 }
 
@@ -386,7 +451,7 @@ impl World {
         }
         best.map(|r| r.via)
     }
-    fn learned(&self, ip: &Ip) -> Vec<[u8; 6]> {
+    fn learned(&self, ip: &Ip) -> Vec<Mac> {
         let mut v = vec![];
         for c in &self.valid {
             if c.ip == *ip && c.seq > self.flush_seq && self.now - c.t < LIFETIME_MS && !v.contains(&c.mac) {
@@ -395,7 +460,7 @@ impl World {
         }
         v
     }
-    fn ever_claimed(&self, ip: &Ip, mac: &[u8; 6]) -> bool {
+    fn ever_claimed(&self, ip: &Ip, mac: &Mac) -> bool {
         self.valid.iter().any(|c| c.ip == *ip && c.mac == *mac && c.seq > self.flush_seq)
     }
 
@@ -403,9 +468,10 @@ impl World {
 
     /// The (ip, mac) associations the frame asserts, each either legitimate
     /// (Ok(kind)) or not (Err(reason)), judged against the state at delivery.
-    fn classify(&self, spec: &Spec) -> Vec<(Ip, [u8; 6], Result<&'static str, &'static str>)> {
+    fn classify(&self, spec: &Spec) -> Vec<(Ip, Mac, Result<&'static str, &'static str>)> {
         let mut out = vec![];
-        let l2_for_us = |d: &[u8; 6]| *d == OUR_MAC || d[0] & 1 == 1;
+        // (802.15.4: destination filtering is the radio's job; such frames are not generated)
+        let l2_for_us = |d: &Mac| self.lowpan || *d == self.our_mac || !d.unicast();
         match spec {
             Spec::Arp { eth_dst, op, sha, spa, tpa, .. } => {
                 let ip = Ip::V4(*spa);
@@ -413,7 +479,7 @@ impl World {
                     Err("frame-not-addressed-to-us")
                 } else if *op != 1 && *op != 2 {
                     Err("arp-unknown-operation")
-                } else if !mac_unicast(sha) {
+                } else if !Mac::new(sha).unicast() {
                     Err("arp-non-unicast-sender-hardware-address")
                 } else if !ip_unicast(&ip) {
                     Err("arp-non-unicast-sender-address")
@@ -425,7 +491,7 @@ impl World {
                 } else {
                     Ok("arp")
                 };
-                out.push((ip, *sha, verdict));
+                out.push((ip, Mac::new(sha), verdict));
             }
             Spec::Nd { eth_src, eth_dst, src, dst, hop, na, target, ll, .. } => {
                 let s = Ip::V6(*src);
@@ -448,6 +514,8 @@ impl World {
                         }
                     } else if *hop != 255 {
                         Err("ndisc-hop-limit-not-255")
+                    } else if l.bytes().len() != if self.lowpan { 8 } else { 6 } {
+                        Err("ndisc-lladdr-of-wrong-length")
                     } else if !mac_unicast(l) {
                         Err("ndisc-non-unicast-lladdr")
                     } else if !ip_unicast(&tgt) {
@@ -496,7 +564,7 @@ impl World {
 
     /// Unicast traffic from (ip, mac) confirms a mapping that was legitimately
     /// claimed before (since the last flush); it never creates one.
-    fn confirmation(&self, ip: &Ip, mac: &[u8; 6]) -> Result<&'static str, &'static str> {
+    fn confirmation(&self, ip: &Ip, mac: &Mac) -> Result<&'static str, &'static str> {
         if self.ever_claimed(ip, mac) {
             Ok("traffic-confirmation")
         } else if let Some(r) = self.weak_reason(ip, mac) {
@@ -508,7 +576,7 @@ impl World {
 
     /// The most telling reason among the illegitimate claims of (ip, mac) since the last flush:
     /// reasons smoltcp is known to act on come first so that one root cause keeps one key.
-    fn weak_reason(&self, ip: &Ip, mac: &[u8; 6]) -> Option<&'static str> {
+    fn weak_reason(&self, ip: &Ip, mac: &Mac) -> Option<&'static str> {
         let w: Vec<&Claim> = self.weak.iter().rev().filter(|c| c.ip == *ip && c.mac == *mac && c.seq > self.flush_seq).collect();
         if let Some(r) = ACTED_ON.iter().find(|r| w.iter().any(|c| c.why == **r)) {
             return Some(r);
@@ -520,6 +588,12 @@ impl World {
     }
 
     fn inject(&mut self, spec: &Spec, src: &mut Src, ctx: &mut Ctx) -> Result<(), Fail> {
+        self.stage(spec, ctx);
+        self.poll(src, ctx)
+    }
+
+    /// Judge the frame against the current state, record what it asserts and queue it for the next poll.
+    fn stage(&mut self, spec: &Spec, ctx: &mut Ctx) {
         let claims = self.classify(spec);
         ctx.note(|| {
             let mut s = format!("t={} env: {}", self.now, spec.describe());
@@ -554,14 +628,14 @@ impl World {
             Spec::Traffic { src: s, .. } => self.reply_dsts.push(*s),
             Spec::Arp { .. } => {}
         }
-        self.node.inject(spec.encode());
-        self.poll(src, ctx)
+        self.inject_seq = self.inject_seq.wrapping_add(1);
+        self.node.inject(spec.encode(self.lowpan, self.inject_seq));
     }
 
     // -------------------------------------------------------------- polling and checking
 
     fn poll(&mut self, src: &mut Src, ctx: &mut Ctx) -> Result<(), Fail> {
-        let frames = self.node.poll(ms(self.now), None);
+        let frames = self.node.poll(ms(self.now), self.budget);
         for f in &frames {
             self.check_frame(f, src, ctx)?;
         }
@@ -642,6 +716,9 @@ impl World {
             }
         } else if !had_post.is_empty() {
             ctx.label("expiry");
+            if had_post.iter().map(|c| self.now - c.t).min() == Some(LIFETIME_MS) {
+                ctx.label("expiry:rediscovered-at-exactly-60000ms");
+            }
         } else if had_pre {
             ctx.label("address change:flushed-entry-rediscovered");
         }
@@ -652,10 +729,12 @@ impl World {
         let v6 = !target.is_v4();
         let answer = if v6 {
             let (Ip::V6(t), Ip::V6(r)) = (target, reply_to) else { unreachable!() };
-            Spec::Nd { eth_src: mac_of(&target), eth_dst: OUR_MAC, src: t, dst: r, hop: 255, na: true, target: t, flags: 0x60, ll: Some(mac_of(&target)) }
+            let m = mac_of(&target, self.lowpan);
+            Spec::Nd { eth_src: m, eth_dst: self.our_mac, src: t, dst: r, hop: 255, na: true, target: t, flags: 0x60, ll: Some(m) }
         } else {
             let (Ip::V4(t), Ip::V4(r)) = (target, reply_to) else { unreachable!() };
-            Spec::Arp { eth_src: mac_of(&target), eth_dst: OUR_MAC, op: 2, sha: mac_of(&target), spa: t, tha: OUR_MAC, tpa: r }
+            let m = mac_of(&target, false);
+            Spec::Arp { eth_src: m, eth_dst: self.our_mac, op: 2, sha: m.e6(), spa: t, tha: self.our_mac.e6(), tpa: r }
         };
         if self.tail {
             if !v6 && !self.on_link(&target) {
@@ -694,31 +773,51 @@ impl World {
     }
 
     fn check_frame(&mut self, frame: &[u8], src: &mut Src, ctx: &mut Ctx) -> Result<(), Fail> {
-        let eth = match decode_eth(frame) {
-            Ok(e) => e,
-            Err(e) => return Err(Fail::new("emitted-frame-undecodable", format!("t={} ms: {}", self.now, e))),
-        };
+        let undecodable = |now: i64, e: String| Fail::new("emitted-frame-undecodable", format!("t={} ms: {}", now, e));
         ctx.count("frames_out", 1);
-        if eth.ethertype == ETH_ARP {
-            let arp = match decode_arp(&eth.payload) {
-                Ok(a) => a,
-                Err(e) => return Err(Fail::new("emitted-frame-undecodable", format!("t={} ms: {}", self.now, e))),
-            };
-            ctx.note(|| format!("t={} out: ARP {} sha={} spa={} tha={} tpa={} -> eth {}", self.now, if arp.op == 1 { "request" } else { "reply" }, mac_s(&arp.sha), Ip::V4(arp.spa), mac_s(&arp.tha), Ip::V4(arp.tpa), mac_s(&eth.dst)));
-            if arp.op == 1 {
-                return self.check_discovery(format!("ARP request for {}", Ip::V4(arp.tpa)), Ip::V4(arp.tpa), Ip::V4(arp.spa), src, ctx);
+        let (l2_dst, pkt): (Mac, IpPkt) = if self.lowpan {
+            let mac = lowpan::decode_154(frame).map_err(|e| undecodable(self.now, e))?;
+            if mac.frame_type != 1 {
+                return Err(undecodable(self.now, format!("802.15.4 frame type {}", mac.frame_type)));
             }
-            return Ok(());
-        }
-        if eth.ethertype != ETH_IPV4 && eth.ethertype != ETH_IPV6 {
-            return Err(Fail::new("emitted-frame-undecodable", format!("t={} ms: ethertype {:#06x}", self.now, eth.ethertype)));
-        }
-        let pkt = match decode_ip(&eth.payload, true) {
-            Ok(p) => p,
-            Err(e) => return Err(Fail::new("emitted-frame-undecodable", format!("t={} ms: {}", self.now, e))),
+            let (Some(d), Some(s)) = (mac.dst.clone(), mac.src.clone()) else {
+                return Err(undecodable(self.now, "802.15.4 data frame without both addresses".into()));
+            };
+            if mac.dst_pan != Some(PAN) {
+                return Err(undecodable(self.now, format!("802.15.4 destination PAN {:?}", mac.dst_pan)));
+            }
+            let l2_dst = Mac::new(&d);
+            match lowpan::decode_lowpan(&mac.payload, &s, &d).map_err(|e| undecodable(self.now, e))? {
+                lowpan::Lowpan::FragN => {
+                    // continuation of a fragmented datagram: no IP header to judge
+                    ctx.label("lowpan:fragN");
+                    ctx.note(|| format!("t={} out: 6LoWPAN FRAGN -> 802.15.4 {}", self.now, l2_dst));
+                    return Ok(());
+                }
+                lowpan::Lowpan::Packet { ip, first_fragment } => {
+                    if first_fragment {
+                        ctx.label("lowpan:frag1");
+                    }
+                    (l2_dst, IpPkt::V6(ip))
+                }
+            }
+        } else {
+            let eth = decode_eth(frame).map_err(|e| undecodable(self.now, e))?;
+            if eth.ethertype == ETH_ARP {
+                let arp = decode_arp(&eth.payload).map_err(|e| undecodable(self.now, e))?;
+                ctx.note(|| format!("t={} out: ARP {} sha={} spa={} tha={} tpa={} -> eth {}", self.now, if arp.op == 1 { "request" } else { "reply" }, Mac::new(&arp.sha), Ip::V4(arp.spa), Mac::new(&arp.tha), Ip::V4(arp.tpa), Mac::new(&eth.dst)));
+                if arp.op == 1 {
+                    return self.check_discovery(format!("ARP request for {}", Ip::V4(arp.tpa)), Ip::V4(arp.tpa), Ip::V4(arp.spa), src, ctx);
+                }
+                return Ok(());
+            }
+            if eth.ethertype != ETH_IPV4 && eth.ethertype != ETH_IPV6 {
+                return Err(undecodable(self.now, format!("ethertype {:#06x}", eth.ethertype)));
+            }
+            (Mac::new(&eth.dst), decode_ip(&eth.payload, true).map_err(|e| undecodable(self.now, e))?)
         };
         let dst = pkt.dst();
-        ctx.note(|| format!("t={} out: {} -> {} proto {} len {} -> eth {}", self.now, pkt.src(), dst, pkt.proto(), pkt.payload().len(), mac_s(&eth.dst)));
+        ctx.note(|| format!("t={} out: {} -> {} proto {} len {} -> L2 {}", self.now, pkt.src(), dst, pkt.proto(), pkt.payload().len(), l2_dst));
         self.track_socket_data(&pkt, ctx)?;
 
         // neighbour solicitation = discovery frame
@@ -748,14 +847,14 @@ impl World {
                     "t={} ms: packet for {} was transmitted (to {}) although the destination is neither on-link ({}) nor covered by an unexpired route{}",
                     self.now,
                     dst,
-                    mac_s(&eth.dst),
+                    l2_dst,
                     self.cidrs.iter().map(|c| c.to_string()).collect::<Vec<_>>().join(", "),
                     if expired.is_empty() { String::new() } else { format!(" (expired: {})", expired.join(", ")) }
                 ),
             ));
         };
         let learned = self.learned(&nh);
-        if mac_unicast(&eth.dst) && learned.contains(&eth.dst) {
+        if l2_dst.unicast() && learned.contains(&l2_dst) {
             self.stats.unicast_checked += 1;
             ctx.count("unicast_frames_checked", 1);
             if !self.stats.next_hops_used.contains(&nh) {
@@ -775,18 +874,24 @@ impl World {
             if learned.len() > 1 {
                 ctx.label("nexthop:two-legitimate-addresses");
             }
-            if self.weak.iter().any(|c| c.ip == nh && c.mac != eth.dst && c.seq > self.flush_seq && self.now - c.t < LIFETIME_MS) {
+            let freshest = self.valid.iter().filter(|c| c.ip == nh && c.mac == l2_dst && c.seq > self.flush_seq).map(|c| self.now - c.t).min().unwrap_or(0);
+            if freshest == LIFETIME_MS - 1 {
+                ctx.label("age:used-at-59999ms");
+            } else if freshest >= LIFETIME_MS - 1000 {
+                ctx.label("age:used-in-last-second-of-lifetime");
+            }
+            if self.weak.iter().any(|c| c.ip == nh && c.mac != l2_dst && c.seq > self.flush_seq && self.now - c.t < LIFETIME_MS) {
                 ctx.label("spoof ignored");
             }
-            if self.valid.iter().any(|c| c.ip == nh && c.mac == eth.dst && c.seq > self.flush_seq && self.now - c.t < LIFETIME_MS && c.why == "traffic-confirmation")
-                && !self.valid.iter().any(|c| c.ip == nh && c.mac == eth.dst && c.seq > self.flush_seq && self.now - c.t < LIFETIME_MS && c.why != "traffic-confirmation")
+            if self.valid.iter().any(|c| c.ip == nh && c.mac == l2_dst && c.seq > self.flush_seq && self.now - c.t < LIFETIME_MS && c.why == "traffic-confirmation")
+                && !self.valid.iter().any(|c| c.ip == nh && c.mac == l2_dst && c.seq > self.flush_seq && self.now - c.t < LIFETIME_MS && c.why != "traffic-confirmation")
             {
                 ctx.label("kept-alive-by-traffic-only");
             }
             return Ok(());
         }
         // ---- violation: find the most precise root cause
-        let m = eth.dst;
+        let m = l2_dst;
         let recent = |c: &&Claim| self.now - c.t < LIFETIME_MS;
         // reasons smoltcp is known to act on come first so that one root cause keeps one key
         let weak_recent: Vec<&Claim> = self.weak.iter().rev().filter(recent).filter(|c| c.ip == nh && c.mac == m && c.seq > self.flush_seq).collect();
@@ -796,12 +901,12 @@ impl World {
             format!("l2dst:learned-from:{}", r)
         } else if self.valid.iter().any(|c| c.ip == nh && c.mac == m && c.seq > self.flush_seq) {
             "l2dst:expired-entry-used".into()
+        } else if self.valid.iter().filter(recent).any(|c| c.ip == nh && c.mac == m) {
+            "l2dst:stale-after-address-change".into()
         } else if let Some(w) = weak_recent.iter().find(|c| c.why != "plain-traffic") {
             format!("l2dst:learned-from:{}", w.why)
         } else if let Some(w) = weak_recent.first() {
             format!("l2dst:learned-from:{}", w.why)
-        } else if self.valid.iter().filter(recent).any(|c| c.ip == nh && c.mac == m) {
-            "l2dst:stale-after-address-change".into()
         } else if let Some(w) = self.weak.iter().rev().find(|c| c.ip == nh && c.mac == m) {
             format!("l2dst:learned-from:{}", w.why)
         } else if let Some(o) = self.valid.iter().rev().find(|c| c.mac == m && c.seq > self.flush_seq) {
@@ -830,7 +935,7 @@ impl World {
                 nh,
                 mac_s(&m),
                 nh,
-                learned.iter().map(mac_s).collect::<Vec<_>>().join(", "),
+                learned.iter().map(|x| x.to_string()).collect::<Vec<_>>().join(", "),
                 if hist.is_empty() { "none".to_string() } else { hist.join("; ") }
             ),
         ))
@@ -948,12 +1053,25 @@ impl World {
 const ACTED_ON: [&str; 3] = ["ns-target-not-ours", "na-source-is-not-its-target", "packet-not-addressed-to-us:low-16-bits-match-own-address"];
 const ALL_NODES: [u8; 16] = [0xff, 0x02, 0, 0, 0, 0, 0, 0, 0, 0, 0, 0, 0, 0, 0, 1];
 
-fn draw_cidrs(src: &mut Src, first: bool) -> Vec<Cidr> {
+fn draw_cidrs(src: &mut Src, first: bool, lowpan: bool) -> Vec<Cidr> {
     let p4 = v4_cidr_palette();
     let p6 = v6_cidr_palette();
     let mut v = vec![];
     if first && !src.chance(1, 3) {
-        return vec![p4[0], p6[0], p6[1]];
+        return if lowpan { vec![p6[0], p6[1]] } else { vec![p4[0], p6[0], p6[1]] };
+    }
+    if lowpan {
+        let a = src.usize(0, p6.len() - 1);
+        v.push(p6[a]);
+        for _ in 0..2 {
+            if src.chance(1, 2) {
+                let b = src.usize(0, p6.len() - 1);
+                if !v.iter().any(|c: &Cidr| c.addr == p6[b].addr) {
+                    v.push(p6[b]);
+                }
+            }
+        }
+        return v;
     }
     // at least one address per family so that a source address always exists
     let a = src.usize(0, p4.len() - 1);
@@ -975,9 +1093,9 @@ fn draw_cidrs(src: &mut Src, first: bool) -> Vec<Cidr> {
     v
 }
 
-fn draw_route(src: &mut Src, now: i64) -> MRoute {
+fn draw_route(src: &mut Src, now: i64, lowpan: bool) -> MRoute {
     let nets = route_nets();
-    let net = nets[src.weighted(&[4, 4, 3, 4, 3, 2, 1])];
+    let net = nets[if lowpan { src.weighted(&[0, 4, 0, 0, 4, 3, 0]) } else { src.weighted(&[4, 4, 3, 4, 3, 2, 1]) }];
     let via = if net.addr.is_v4() { v4_gateways()[src.weighted(&[4, 3, 3, 1])] } else { v6_gateways()[src.weighted(&[3, 3, 2])] };
     let expires_us = match src.weighted(&[5, 2, 2, 1, 1]) {
         0 => None,
@@ -1033,20 +1151,133 @@ fn draw_station(src: &mut Src, v6: bool) -> Ip {
     }
 }
 
-fn draw_mac(src: &mut Src, truth: [u8; 6]) -> [u8; 6] {
+fn draw_mac(src: &mut Src, truth: Mac, lowpan: bool) -> Mac {
     match src.weighted(&[6, 3, 1, 1]) {
         0 => truth,
-        1 => [0x02, 0xee, 0, 0, 0, src.range(1, 3) as u8],
-        2 => [0xff; 6],
-        _ => [0x01, 0x00, 0x5e, 0, 0, 1],
+        1 => spoof_mac(src.range(1, 3) as u8, lowpan),
+        // Ethernet: broadcast / multicast; 802.15.4: an option carrying a 6-octet address
+        2 => Mac::new(&[0xff; 6]),
+        _ => Mac::new(&[0x01, 0x00, 0x5e, 0, 0, 1]),
     }
 }
 
+/// ARP message: unsolicited, spoofed or plain valid
+fn gen_arp(w: &World, src: &mut Src) -> Spec {
+    let subject = match src.weighted(&[8, 1, 1, 1]) {
+        0 => draw_station(src, false),
+        1 => ip4(255, 255, 255, 255),
+        2 => ip4(224, 0, 0, 1),
+        _ => ip4(0, 0, 0, 0),
+    };
+    let Ip::V4(spa) = subject else { unreachable!() };
+    let sha = draw_mac(src, mac_of(&subject, false), false);
+    let op = *src.pick(&[2u16, 1, 2, 1, 3]);
+    let our4: Vec<[u8; 4]> = w.cidrs.iter().filter_map(|c| if let Ip::V4(a) = c.addr { Some(a) } else { None }).collect();
+    let tpa = if src.chance(1, 5) { [10, 0, 0, 99] } else { our4[src.usize(0, our4.len() - 1)] };
+    let eth_src = if src.chance(1, 6) { spoof_mac(9, false) } else if mac_unicast(&sha) { sha } else { mac_of(&subject, false) };
+    let eth_dst = match src.weighted(&[5, 3, 1]) {
+        0 => w.our_mac,
+        1 => Mac::new(&[0xff; 6]),
+        _ => Mac::new(&[0x02, 0, 0, 0, 0, 0x77]),
+    };
+    Spec::Arp { eth_src, eth_dst, op, sha: sha.e6(), spa, tha: if src.bool() { w.our_mac.e6() } else { [0; 6] }, tpa }
+}
+
+/// neighbour advertisement / solicitation: unsolicited, spoofed, invalid or plain valid
+fn gen_nd(w: &World, src: &mut Src) -> Spec {
+    let lowpan = w.lowpan;
+    let na = src.chance(2, 3);
+    let subject = match src.weighted(&[10, 1, 1]) {
+        0 => draw_station(src, true),
+        1 => ip6([0xff02, 0, 0, 0, 0, 0, 0, 1]),
+        _ => ip6([0; 8]),
+    };
+    let Ip::V6(s) = subject else { unreachable!() };
+    let our6: Vec<[u8; 16]> = w.cidrs.iter().filter_map(|c| if let Ip::V6(a) = c.addr { Some(a) } else { None }).collect();
+    let me = our6[src.usize(0, our6.len() - 1)];
+    let ll = if src.chance(1, 8) { None } else { Some(draw_mac(src, mac_of(&subject, lowpan), lowpan)) };
+    let hop = if src.chance(1, 8) { 64 } else { 255 };
+    let other = draw_station(src, true);
+    let Ip::V6(o) = other else { unreachable!() };
+    let stranger = [0xfd, 0, 0, 0, 0, 0, 0, 0, 0, 0, 0, 0, 0, 0, 0, 0x63];
+    let (dst, target, flags) = if na {
+        let target = if src.chance(1, 4) { o } else { s };
+        let dst = match src.weighted(&[5, 3, 1]) {
+            0 => me,
+            1 => ALL_NODES,
+            _ => stranger,
+        };
+        (dst, target, *src.pick(&[0x60u8, 0x40, 0x20, 0x00, 0xe0]))
+    } else {
+        let target = if src.chance(1, 4) { o } else { me };
+        let dst = match src.weighted(&[4, 4, 1]) {
+            0 => solicited_node(&me),
+            1 => me,
+            _ => stranger,
+        };
+        (dst, target, 0)
+    };
+    let eth_src = match ll {
+        Some(l) if mac_unicast(&l) && l.bytes().len() == if lowpan { 8 } else { 6 } && !src.chance(1, 6) => l,
+        _ => mac_of(&subject, lowpan),
+    };
+    let eth_dst = if lowpan {
+        if dst[0] == 0xff {
+            Mac::new(&[0xff, 0xff])
+        } else {
+            w.our_mac
+        }
+    } else if dst[0] == 0xff {
+        Mac::new(&mac_for_multicast(&Ip::V6(dst)))
+    } else if src.chance(1, 10) {
+        Mac::new(&[0x02, 0, 0, 0, 0, 0x77])
+    } else {
+        w.our_mac
+    };
+    Spec::Nd { eth_src, eth_dst, src: s, dst, hop, na, target, flags, ll }
+}
+
+/// plain traffic from a neighbour, from beyond a gateway or from an impostor
+fn gen_traffic(w: &World, src: &mut Src) -> Spec {
+    let lowpan = w.lowpan;
+    let v6 = lowpan || src.chance(2, 5);
+    let from = draw_station(src, v6);
+    let eth_src = match src.weighted(&[6, 2, 1]) {
+        0 => mac_of(&from, lowpan),
+        1 => mac_of(&if v6 { v6_gateways()[src.usize(0, 2)] } else { v4_gateways()[src.usize(0, 3)] }, lowpan),
+        _ => spoof_mac(src.range(1, 3) as u8, lowpan),
+    };
+    let ours: Vec<Ip> = w.cidrs.iter().map(|c| c.addr).filter(|a| a.is_v4() != v6).collect();
+    let dst = if !v6 && src.chance(1, 10) { ip4(255, 255, 255, 255) } else { ours[src.usize(0, ours.len() - 1)] };
+    let eth_dst = if w.is_bcast(&dst) { Mac::new(&[0xff; 6]) } else { w.our_mac };
+    let kind = src.weighted(&[3, 2, 3, 2]) as u8;
+    Spec::Traffic { eth_src, eth_dst, src: from, dst, kind }
+}
+
 fn case(src: &mut Src, ctx: &mut Ctx) -> Result<(), Fail> {
+    run(src, ctx, false)
+}
+
+pub fn run(src: &mut Src, ctx: &mut Ctx, lowpan: bool) -> Result<(), Fail> {
+    // development aid: C16_ONLY=ethernet|ieee802154 skips the other part
+    static ONLY: std::sync::OnceLock<Option<String>> = std::sync::OnceLock::new();
+    if let Some(o) = ONLY.get_or_init(|| std::env::var("C16_ONLY").ok()) {
+        if (o == "ethernet") == lowpan {
+            return Ok(());
+        }
+    }
     // ---- configuration
     let seed = src.u64();
     let t0 = *src.pick(&[0i64, 1, 999, 1000, 5000, 100_000]);
-    let mut node = Node::new(Hw::Eth(OUR_MAC), 1500, seed, false, ms(t0));
+    let (hw, our_mac) = if !lowpan {
+        (Hw::Eth([0x02, 0, 0, 0, 0, 1]), Mac::new(&[0x02, 0, 0, 0, 0, 1]))
+    } else if src.chance(1, 4) {
+        (Hw::IeeeShort([0x00, 0x01], Some(PAN)), Mac::new(&[0x00, 0x01]))
+    } else {
+        // fe80::1 is the link-local address derived from this extended address
+        (Hw::Ieee([0x02, 0, 0, 0, 0, 0, 0, 1], Some(PAN)), Mac::new(&[0x02, 0, 0, 0, 0, 0, 0, 1]))
+    };
+    let mut node = Node::new(hw, if lowpan { 125 } else { 1500 }, seed, false, ms(t0));
     let n_udp = 1 + src.weighted(&[2, 3, 3, 2]);
     let with_icmp = !src.chance(1, 4);
     let with_tcp = !src.chance(1, 3);
@@ -1107,6 +1338,9 @@ fn case(src: &mut Src, ctx: &mut Ctx) -> Result<(), Fail> {
     }
     let mut w = World {
         node,
+        lowpan,
+        our_mac,
+        inject_seq: 0,
         now: t0,
         seq: 0,
         flush_seq: 0,
@@ -1126,13 +1360,14 @@ fn case(src: &mut Src, ctx: &mut Ctx) -> Result<(), Fail> {
         reply_dsts: vec![],
         tail: false,
         tail_unanswerable: 0,
+        budget: None,
         stats: Stats { t_first: t0, ..Default::default() },
     };
-    let cidrs = draw_cidrs(src, true);
+    let cidrs = draw_cidrs(src, true, lowpan);
     w.apply_addrs(cidrs);
     let n_routes = src.weighted(&[1, 2, 3, 3, 3]);
     for _ in 0..n_routes {
-        let r = draw_route(src, t0);
+        let r = draw_route(src, t0, lowpan);
         if let Some(e) = w.routes.iter_mut().find(|e| e.net == r.net) {
             *e = r;
         } else {
@@ -1142,7 +1377,9 @@ fn case(src: &mut Src, ctx: &mut Ctx) -> Result<(), Fail> {
     w.apply_routes();
     ctx.note(|| {
         format!(
-            "t0={} ms sockets=[{}] addrs=[{}] routes=[{}]",
+            "{} hw={} t0={} ms sockets=[{}] addrs=[{}] routes=[{}]",
+            if lowpan { "ieee802154" } else { "ethernet" },
+            w.our_mac,
             t0,
             w.socks.iter().map(|s| format!("{:?}:{}", s.kind, s.port)).collect::<Vec<_>>().join(" "),
             w.cidrs.iter().map(|c| c.to_string()).collect::<Vec<_>>().join(" "),
@@ -1154,14 +1391,21 @@ fn case(src: &mut Src, ctx: &mut Ctx) -> Result<(), Fail> {
 
     // ---- scripted history
     let mut steps = 0;
-    let mut changed_addr = false;
     while steps < 70 && src.more(29, 30) {
         steps += 1;
-        match src.weighted(&[10, 4, 4, 4, 7, 1, 2, 1]) {
+        w.budget = match src.weighted(&[10, 1, 1]) {
+            0 => None,
+            1 => Some(1),
+            _ => Some(2),
+        };
+        if w.budget.is_some() {
+            ctx.label("device:tx-budget-limited");
+        }
+        match src.weighted(&if lowpan { [10, 0, 7, 4, 7, 1, 2, 1, 2] } else { [10, 4, 4, 4, 7, 1, 2, 1, 2] }) {
             0 => {
                 // application send
                 let i = src.usize(0, w.socks.len() - 1);
-                let v6 = src.chance(2, 5);
+                let v6 = lowpan || src.chance(2, 5);
                 let dst = draw_dst(src, v6);
                 let id = w.next_id;
                 match w.socks[i].kind {
@@ -1207,89 +1451,17 @@ fn case(src: &mut Src, ctx: &mut Ctx) -> Result<(), Fail> {
                 w.settle(src, ctx)?;
             }
             1 => {
-                // ARP claim (unsolicited, spoofed or plain valid)
-                let subject = match src.weighted(&[8, 1, 1, 1]) {
-                    0 => draw_station(src, false),
-                    1 => ip4(255, 255, 255, 255),
-                    2 => ip4(224, 0, 0, 1),
-                    _ => ip4(0, 0, 0, 0),
-                };
-                let Ip::V4(spa) = subject else { unreachable!() };
-                let sha = draw_mac(src, mac_of(&subject));
-                let op = *src.pick(&[2u16, 1, 2, 1, 3]);
-                let our4: Vec<[u8; 4]> = w.cidrs.iter().filter_map(|c| if let Ip::V4(a) = c.addr { Some(a) } else { None }).collect();
-                let tpa = if src.chance(1, 5) { [10, 0, 0, 99] } else { our4[src.usize(0, our4.len() - 1)] };
-                let eth_src = if src.chance(1, 6) { [0x02, 0xee, 0, 0, 0, 9] } else if mac_unicast(&sha) { sha } else { mac_of(&subject) };
-                let eth_dst = match src.weighted(&[5, 3, 1]) {
-                    0 => OUR_MAC,
-                    1 => [0xff; 6],
-                    _ => [0x02, 0, 0, 0, 0, 0x77],
-                };
-                let spec = Spec::Arp { eth_src, eth_dst, op, sha, spa, tha: if src.bool() { OUR_MAC } else { [0; 6] }, tpa };
+                let spec = gen_arp(&w, src);
                 w.inject(&spec, src, ctx)?;
                 w.settle(src, ctx)?;
             }
             2 => {
-                // NDISC claim
-                let na = src.chance(2, 3);
-                let subject = match src.weighted(&[10, 1, 1]) {
-                    0 => draw_station(src, true),
-                    1 => ip6([0xff02, 0, 0, 0, 0, 0, 0, 1]),
-                    _ => ip6([0; 8]),
-                };
-                let Ip::V6(s) = subject else { unreachable!() };
-                let our6: Vec<[u8; 16]> = w.cidrs.iter().filter_map(|c| if let Ip::V6(a) = c.addr { Some(a) } else { None }).collect();
-                let me = our6[src.usize(0, our6.len() - 1)];
-                let ll = if src.chance(1, 8) { None } else { Some(draw_mac(src, mac_of(&subject))) };
-                let hop = if src.chance(1, 8) { 64 } else { 255 };
-                let other = draw_station(src, true);
-                let Ip::V6(o) = other else { unreachable!() };
-                let (dst, target, flags) = if na {
-                    let target = if src.chance(1, 4) { o } else { s };
-                    let dst = match src.weighted(&[5, 3, 1]) {
-                        0 => me,
-                        1 => ALL_NODES,
-                        _ => [0xfd, 0, 0, 0, 0, 0, 0, 0, 0, 0, 0, 0, 0, 0, 0, 0x63],
-                    };
-                    (dst, target, *src.pick(&[0x60u8, 0x40, 0x20, 0x00, 0xe0]))
-                } else {
-                    let target = if src.chance(1, 4) { o } else { me };
-                    let dst = match src.weighted(&[4, 4, 1]) {
-                        0 => solicited_node(&me),
-                        1 => me,
-                        _ => [0xfd, 0, 0, 0, 0, 0, 0, 0, 0, 0, 0, 0, 0, 0, 0, 0x63],
-                    };
-                    (dst, target, 0)
-                };
-                let eth_src = match ll {
-                    Some(l) if mac_unicast(&l) && !src.chance(1, 6) => l,
-                    _ => mac_of(&subject),
-                };
-                let eth_dst = if dst[0] == 0xff {
-                    mac_for_multicast(&Ip::V6(dst))
-                } else if src.chance(1, 10) {
-                    [0x02, 0, 0, 0, 0, 0x77]
-                } else {
-                    OUR_MAC
-                };
-                let spec = Spec::Nd { eth_src, eth_dst, src: s, dst, hop, na, target, flags, ll };
+                let spec = gen_nd(&w, src);
                 w.inject(&spec, src, ctx)?;
                 w.settle(src, ctx)?;
             }
             3 => {
-                // plain traffic from a neighbour or from beyond a gateway
-                let v6 = src.chance(2, 5);
-                let from = draw_station(src, v6);
-                let eth_src = match src.weighted(&[6, 2, 1]) {
-                    0 => mac_of(&from),
-                    1 => mac_of(&if v6 { v6_gateways()[src.usize(0, 2)] } else { v4_gateways()[src.usize(0, 3)] }),
-                    _ => [0x02, 0xee, 0, 0, 0, src.range(1, 3) as u8],
-                };
-                let ours: Vec<Ip> = w.cidrs.iter().map(|c| c.addr).filter(|a| a.is_v4() != v6).collect();
-                let dst = if !v6 && src.chance(1, 10) { ip4(255, 255, 255, 255) } else { ours[src.usize(0, ours.len() - 1)] };
-                let eth_dst = if w.is_bcast(&dst) { [0xff; 6] } else { OUR_MAC };
-                let kind = src.weighted(&[3, 2, 3, 2]) as u8;
-                let spec = Spec::Traffic { eth_src, eth_dst, src: from, dst, kind };
+                let spec = gen_traffic(&w, src);
                 w.inject(&spec, src, ctx)?;
                 w.settle(src, ctx)?;
             }
@@ -1304,10 +1476,9 @@ fn case(src: &mut Src, ctx: &mut Ctx) -> Result<(), Fail> {
                 w.advance(d, walk, src, ctx)?;
             }
             5 => {
-                let cidrs = draw_cidrs(src, false);
+                let cidrs = draw_cidrs(src, false, lowpan);
                 ctx.note(|| format!("t={} app: update_ip_addrs -> [{}]", w.now, cidrs.iter().map(|c| c.to_string()).collect::<Vec<_>>().join(" ")));
                 w.apply_addrs(cidrs);
-                changed_addr = true;
                 ctx.label("address change");
                 w.settle(src, ctx)?;
             }
@@ -1317,7 +1488,7 @@ fn case(src: &mut Src, ctx: &mut Ctx) -> Result<(), Fail> {
                     let r = w.routes.remove(i);
                     ctx.note(|| format!("t={} app: route {} via {} removed", w.now, r.net, r.via));
                 } else {
-                    let r = draw_route(src, w.now);
+                    let r = draw_route(src, w.now, lowpan);
                     ctx.note(|| format!("t={} app: route {} via {} expires {:?} us", w.now, r.net, r.via, r.expires_us));
                     if let Some(e) = w.routes.iter_mut().find(|e| e.net == r.net) {
                         *e = r;
@@ -1330,6 +1501,21 @@ fn case(src: &mut Src, ctx: &mut Ctx) -> Result<(), Fail> {
                 }
                 w.apply_routes();
                 ctx.label("route change");
+                w.settle(src, ctx)?;
+            }
+            8 => {
+                // several frames waiting in the device when poll() is called
+                let n = src.usize(2, 4);
+                ctx.note(|| format!("t={} env: burst of {} frames before one poll", w.now, n));
+                for _ in 0..n {
+                    let spec = match src.weighted(&if lowpan { [0, 3, 3] } else { [2, 2, 3] }) {
+                        0 => gen_arp(&w, src),
+                        1 => gen_nd(&w, src),
+                        _ => gen_traffic(&w, src),
+                    };
+                    w.stage(&spec, ctx);
+                }
+                ctx.label("burst");
                 w.settle(src, ctx)?;
             }
             _ => {
@@ -1348,6 +1534,7 @@ fn case(src: &mut Src, ctx: &mut Ctx) -> Result<(), Fail> {
 
     // ---- tail: every request is answered at once; routes no longer expire
     w.tail = true;
+    w.budget = None;
     let before = w.routes.len();
     let now_us = w.now * 1000;
     w.routes.retain(|r| r.expires_us.map_or(true, |e| now_us <= e));
@@ -1452,7 +1639,6 @@ fn case(src: &mut Src, ctx: &mut Ctx) -> Result<(), Fail> {
     if w.stats.unicast_checked >= 1 && w.stats.discoveries >= 1 && (span > LIFETIME_MS || w.stats.next_hops_used.len() > smoltcp::config::IFACE_NEIGHBOR_CACHE_COUNT) {
         ctx.nontrivial = true;
     }
-    let _ = changed_addr;
     ctx.digest.u64(w.stats.unicast_checked);
     ctx.digest.u64(w.stats.discoveries);
     ctx.digest.u64(w.seq);
@@ -1464,17 +1650,18 @@ pub fn prop() -> Prop {
     Prop {
         id: "C16",
         parts: vec![
-            Part { name: "ethernet", case, quick: 16_000, thorough: 800_000 },
-            Part { name: "ieee802154", case: lowpan::case, quick: 4_000, thorough: 200_000 },
+            Part { name: "ethernet", case, quick: 160_000, thorough: 8_000_000 },
+            Part { name: "ieee802154", case: lowpan::case, quick: 40_000, thorough: 2_000_000 },
         ],
         phases: vec![],
         smoltcp_panic_is_violation: true,
-        rule: "ethernet: a node (IPv4+IPv6, 1-2 addresses per family drawn from prefixes /16../30 and /48../64, up to 4 routes incl. default, more-specific and expiring ones, 2-6 sockets: UDP, ICMP, one TCP connect, in drawn order) and a history of <=70 events: application sends to >=6 on-link hosts, off-link hosts behind default / more specific / expiring / no route, broadcast and multicast; ARP and NDISC messages that are valid, unsolicited, from off-link senders, with broadcast/multicast hardware address, wrong target, wrong hop limit, not addressed to us, NA with every flag combination and for another target; plain UDP/ICMP/TCP traffic from neighbours, gateways and impostors; update_ip_addrs; route add/replace/remove; time steps 1 ms..70 s (jumping or following poll_at) incl. 999/1000/1001 ms and 59999/60000/60001 ms; every ARP request / NS seen is answered at once, after 0.1-5 s or never; tail: all requests answered at once until every datagram queued behind a resolvable head is on the wire. ieee802154: same on 802.15.4/6LoWPAN (IPv6, extended or short hardware addresses) with an own 802.15.4 header + IPHC destination decoder. Oracle per emitted frame: own longest-prefix-match next hop; L2 destination must be unicast and a hardware address legitimately claimed for the next hop < 60 s ago and after the last address change; discovery frames >= 1 s apart and only for next hops of queued packets or pending replies; datagrams leave sockets in order, exactly once, only by transmission. non-trivial = >=1 unicast frame checked against a learned address, >=1 discovery frame, and (history spans > 60 s or > cache-slot-count distinct next hops used); distinct by digest of (start time, destinations, counts, end time)",
+        rule: "ethernet: a node (IPv4+IPv6, 1-2 addresses per family drawn from prefixes /16../30 and /48../64, up to 4 routes: default, more specific, expiring, with on-link or off-link gateways; 2-6 sockets: 1-4 UDP, ICMP, one TCP connect, in drawn order) and a history of <=70 events: application sends to >=6 on-link hosts, off-link hosts behind default / more specific / expiring / no route, broadcast and multicast; ARP and NDISC messages that are valid, unsolicited, from off-link senders, with broadcast/multicast hardware address, wrong target, wrong hop limit, unknown operation, not addressed to us (L2 or L3), NA with every flag combination and for another target, NS for a target that is not ours; plain UDP/ICMP/TCP traffic from neighbours, gateways and impostors; bursts of 2-4 such frames before one poll; update_ip_addrs; route add/replace/remove; device transmit budget 1, 2 or unlimited per poll; time steps 1 ms..70 s (one jump or following poll_at) incl. 999/1000/1001 ms and 59999/60000/60001 ms; every ARP request / NS seen is answered at once, after 0.1-5 s or never; tail: routes frozen, all requests answered at once until every datagram queued behind a resolvable head is on the wire (<=150 s). ieee802154: the same world on 802.15.4/6LoWPAN (IPv6 only, extended or short own hardware address, neighbours with EUI-64-derived and unrelated addresses) read through an own 802.15.4 header + RFC 6282 IPHC/UDP-NHC decoder. Oracle per emitted frame: own longest-prefix-match next hop over the interface prefixes and unexpired routes (none => nothing may be sent); L2 destination must be unicast and a hardware address legitimately claimed for the next hop < 60 s ago and after the last address change; every ARP request / NS is >= 1 s after the previous one (one limiter for all neighbours, as in the code) and asks for the next hop of a queued packet or of a reply to a frame just received; datagrams leave a socket in order, exactly once and only by being transmitted. non-trivial = >=1 unicast frame checked against a learned address, >=1 discovery frame, and (history spans > 60 s or more distinct next hops used than neighbour-cache slots); distinct by digest of (start time, destinations, counts, end time)",
         assumptions: vec![
-            "independent Ethernet/ARP/NDISC/IPv4/IPv6/UDP/ICMP codecs in vkit::indep; own 802.15.4 header and IPHC address decoder in c16_lowpan.rs",
-            "a claim is legitimate when a careful RFC 826 / RFC 4861 receiver may act on it: ARP with unicast on-link sender (creating an entry only when aimed at us), NA with hop limit 255 about its Target Address, NS with hop limit 255 whose target is one of our addresses; unicast IP traffic from (ip, mac) confirms a mapping claimed before, it never creates one",
-            "the set of legitimate hardware addresses is permissive (any legitimate claim of the last 60 s), so which of two competing legitimate claims wins (override flag, eviction) is not judged",
-            "route expiry instants are never hit exactly (x.5 ms), polls happen at whole milliseconds",
+            "independent Ethernet/ARP/NDISC/IPv4/IPv6/UDP/ICMP codecs in vkit::indep; own 802.15.4 header and IPHC/NHC decoder (stateless modes) in c16_lowpan.rs",
+            "a claim is legitimate when a careful RFC 826 / RFC 4861 receiver may act on it: ARP request/reply delivered to us with unicast on-link sender addresses (creating an entry only when aimed at one of our addresses); NA with hop limit 255, delivered to one of our addresses or all-nodes, about its Target Address; NS with hop limit 255 whose target is one of our addresses; unicast IP traffic from (ip, mac) to one of our addresses confirms a mapping claimed before (since the last flush, even if expired meanwhile), it never creates one",
+            "the set of legitimate hardware addresses is permissive (any legitimate claim of the last 60 s since the last address change), so which of two competing legitimate claims wins (override flag, eviction order) is not judged, and claims smoltcp chooses to ignore are not demanded",
+            "route expiry instants are never hit exactly (x.5 ms); polls happen at whole milliseconds; on 802.15.4 frames addressed to other stations are not generated (destination filtering is the radio's job)",
+            "tail liveness (tail:*) goes beyond the letter of the statement: it demands that data queued behind a resolvable next hop is eventually sent once every request is answered",
         ],
     }
 }
